@@ -428,6 +428,75 @@ pub fn engine_accepts(f: &Factory, root: &llguidance::Matcher, lit: &str) -> boo
     m.is_accepting().unwrap_or(false)
 }
 
+/// Two numeric sub-schemas in ONE document (a closed 2-tuple and an object with two required properties):
+/// every ordered pair from a menu of ranges that normalise to the same or to different integer ranges
+/// (inclusive and exclusive spellings) x multipleOf {none, 2, 3, 5}. Anything the compiler shares between
+/// sub-schemas of one compilation (caches keyed by part of the schema) shows up as the second position
+/// behaving like the first. Every pair of literals from a small grid is committed; expected = conjunction of
+/// the two exact predicates.
+fn pairs_in_one_document(ctx: &Ctx, evals: &AtomicU64) {
+    let vocab = vocab::bytes_vocab(b"0123456789-.[],{}\"ab:");
+    let mut menu: Vec<NumSpec> = vec![];
+    for integer in [true, false] {
+        let ranges: Vec<(Option<(String, bool)>, Option<(String, bool)>)> = vec![
+            (None, None),
+            (Some(("0".into(), false)), Some(("12".into(), false))),
+            (Some(("-1".into(), true)), Some(("13".into(), true))),
+            (Some(("3".into(), false)), None),
+        ];
+        for (lo, hi) in ranges {
+            for m in [None, Some("2"), Some("3"), Some("5")] {
+                if !integer && (m == Some("3") || lo.as_ref().map_or(false, |l| l.1)) {
+                    continue;
+                }
+                menu.push(NumSpec { integer, lo: lo.clone(), hi: hi.clone(), mult: m.map(|x| x.to_string()), form: 0, lo2: None, hi2: None });
+            }
+        }
+    }
+    let lits: Vec<&str> = vec!["-2", "0", "1", "2", "3", "4", "5", "6", "7", "9", "10", "12", "13", "15", "30", "2.5"];
+    let pairs: Vec<(usize, usize)> = (0..menu.len()).flat_map(|a| (0..menu.len()).map(move |b| (a, b))).filter(|(a, b)| a != b && menu[*a].integer == menu[*b].integer).collect();
+    pairs.par_iter().for_each(|(ai, bi)| {
+        if ctx.over_budget() {
+            ctx.count("schemas_skipped_budget", 1);
+            return;
+        }
+        let (a, b) = (&menu[*ai], &menu[*bi]);
+        let f = Factory::new(&vocab, &Slices::None).unwrap();
+        for form in 0..2 {
+            let schema = if form == 0 {
+                json!({"type": "array", "prefixItems": [a.schema(), b.schema()], "items": false, "minItems": 2, "x-guidance": {"whitespace_flexible": false}})
+            } else {
+                json!({"type": "object", "properties": {"a": a.schema(), "b": b.schema()}, "required": ["a", "b"], "additionalProperties": false, "x-guidance": {"whitespace_flexible": false}})
+            };
+            let Ok(root) = f.try_matcher(&GrammarSpec::Json(schema.clone())) else {
+                ctx.count("pair_documents_refused", 1);
+                continue;
+            };
+            ctx.states.fetch_add(1, Ordering::Relaxed);
+            ctx.count("pair_documents", 1);
+            for x in lits.iter() {
+                for y in lits.iter() {
+                    let text = if form == 0 { format!("[{x},{y}]") } else { format!("{{\"a\":{x},\"b\":{y}}}") };
+                    let acc = engine_accepts(&f, &root, &text);
+                    evals.fetch_add(1, Ordering::Relaxed);
+                    ctx.transitions.fetch_add(text.len() as u64, Ordering::Relaxed);
+                    let (vx, vy) = (Dec::parse(x).unwrap(), Dec::parse(y).unwrap());
+                    let exp = a.sat(&vx) && b.sat(&vy);
+                    if acc != exp {
+                        ctx.violation(Violation {
+                            check: "pair_in_one_document".into(),
+                            class: if acc { "numeric-accepts-out-of-range".into() } else { "numeric-rejects-valid-literal".into() },
+                            signature: format!("pair|{}|{}", schema, text),
+                            detail: json!({"kind": "numeric", "schema": schema, "literal": text, "engine_accepts": acc, "reference": exp}),
+                        });
+                        return;
+                    }
+                }
+            }
+        }
+    });
+}
+
 pub fn run(ctx: &Ctx) -> Coverage {
     let specs = specs(ctx);
     let vocab = vocab::bytes_vocab(b"0123456789-.+eEx, ");
@@ -516,11 +585,12 @@ pub fn run(ctx: &Ctx) -> Coverage {
             }
         }
     });
+    pairs_in_one_document(ctx, &evals);
     ctx.validated.store(evals.load(Ordering::Relaxed), Ordering::Relaxed);
     if ctx.get_count("schemas_with_accepts_and_rejects") == 0 {
         ctx.machinery_error("vacuous run: no schema with both accepted and rejected literals");
     }
     Coverage::StateGraph {
-        rule: format!("{} integer/number schemas: every integer bound pair in a window (strided in the quick tier), every inclusive/exclusive combination (2020-12 and draft-4 boolean forms), one-sided forms, decimal bounds with <= 3 fractional digits, multipleOf alone and under allOf, bounds near +-10^k; for each schema every literal of a grid (all integers in the window widened by {widen}, 0-3 fractional digits incl. trailing zeros, neighbours of decimal bounds, malformed spellings) is committed byte by byte to a fresh clone of the real engine and compared with an exact decimal predicate; states = schemas, transitions = bytes committed, traces = literals", specs.len()),
+        rule: format!("{} integer/number schemas: every integer bound pair in a window (strided in the quick tier), every inclusive/exclusive combination (2020-12 and draft-4 boolean forms), one-sided forms, decimal bounds with <= 3 fractional digits, multipleOf alone and under allOf, bounds near +-10^k; for each schema every literal of a grid (all integers in the window widened by {widen}, 0-3 fractional digits incl. trailing zeros, neighbours of decimal bounds, malformed spellings) is committed byte by byte to a fresh clone of the real engine and compared with an exact decimal predicate; states = schemas, transitions = bytes committed, traces = literals; plus two numeric sub-schemas in one document (2-tuple / two required properties): every ordered pair of a 20-entry menu (ranges with equal and different normal forms x multipleOf none/2/3/5), every pair of 16 literals", specs.len()),
     }
 }
